@@ -246,8 +246,14 @@ C14_ASSUME = MT_ASSUME + [
     "sequentially consistent data-race freedom at C level; weak hardware orderings are not explored",
 ]
 CHECKS["C14"] = dict(
-    quick=[R("h_event_mt", "bound=1 transports=0-3 hacts=1 abn_ignore=0", variant="tsan", sched=True)],
-    thorough=[R("h_event_mt", "bound=2 transports=0-4 hacts=1", variant="tsan", sched=True)],
+    quick=[R("h_event_mt", "bound=1 transports=0-3 hacts=1", variant="tsan", sched=True),
+           R("h_raw", "bound=2", variant="tsan", sched=True),
+           R("h_work", "bound=1", variant="tsan", sched=True),
+           R("h_thread", "bound=2", variant="tsan", sched=True)],
+    thorough=[R("h_event_mt", "bound=2 transports=0-4 hacts=1", variant="tsan", sched=True),
+              R("h_raw", "bound=4", variant="tsan", sched=True),
+              R("h_work", "bound=2 methods=0,2 maxthreads=2", variant="tsan", sched=True),
+              R("h_thread", "bound=4", variant="tsan", sched=True)],
     rule="the multi-threaded scenario programs of C08-C13 under every schedule within the preemption bound, library built with "
          "-fsanitize=thread; an execution is one schedule; distinct = distinct observation traces",
     explanation="exhaustive schedule enumeration supplies the schedules in which conflicting accesses actually execute; on each one the "
@@ -288,8 +294,9 @@ CHECKS["C12"] = dict(
 )
 CHECKS["C13"] = dict(
     quick=[R("h_work", "bound=1", sched=True),
-           R("h_work", "bound=2 methods=2 maxthreads=1,2 progs=1,2,5 puts=1-4", sched=True)],
-    thorough=[R("h_work", "bound=2", sched=True)],
+           R("h_work", "bound=2 methods=2 maxthreads=1,2 progs=1,2,5 puts=1-4", sched=True),
+           R("h_thread", "bound=3", sched=True)],
+    thorough=[R("h_work", "bound=2", sched=True), R("h_thread", "bound=6", sched=True)],
     rule=WORK_RULE,
     explanation="after the release: items already submitted complete, every worker calls thread_stop once after thread_start, every created "
                 "thread finishes and is joined by the library, iv_main returns only then and does return; the pool struct is poisoned and "
